@@ -1,4 +1,17 @@
-from typing import Iterator, Tuple
+from typing import Iterator, Tuple, List
+
+
+def split_lines__keep_ends(s: str) -> List[str]:
+    """
+    Splits a string into lines, in the same way as iteration over a text file does:
+    lines are ended by '\\n' only (unlike str.splitlines), and line endings are kept.
+    """
+    lines = s.split('\n')
+    last = lines.pop()
+    ret_val = [line + '\n' for line in lines]
+    if last:
+        ret_val.append(last)
+    return ret_val
 
 
 def read_lines_as_str__w_minimum_num_chars(min_num_chars_to_read: int, lines: Iterator[str]) -> Tuple[str, bool]:
